@@ -200,6 +200,9 @@ func (c *connection) onProcess(onConnect OnConnect, onRequest OnRequest) (proces
 		// trigger onConnect first
 		if onConnect != nil && c.changeState(connStateNone, connStateConnected) {
 			c.ctx = onConnect(c.ctx, c)
+			// OnConnect may have set or replaced the request handler (SetOnRequest cannot start it while
+			// this task holds the processing lock): input that is already buffered is offered to that one.
+			onRequest, _ = c.onRequestCallback.Load().(OnRequest)
 			if !c.IsActive() && c.changeState(connStateConnected, connStateDisconnected) {
 				// since we hold connecting lock, so we should help to call onDisconnect here
 				onDisconnect, _ := c.onDisconnectCallback.Load().(OnDisconnect)
